@@ -93,7 +93,11 @@ for TG in ("hypercorn.asyncio.task_group:TaskGroup", "hypercorn.trio.task_group:
                 # C08 / C16: the queue between the connection and the application holds at most
                 # max_app_queue_size messages on both workers (the reader is held back when it is full)
                 ("C16.spawn_app.bounded-queue", "n_emitted('queues') == 1 and emitted('queues')[0][1] == config.max_app_queue_size", "C16,C08")] +
-               ([("C17.call_soon.waits", "bridge_waits(local('_call_soon'))", "C17,C16,C08")] if "asyncio" in TG else []),
+               ([("C17.call_soon.waits", "bridge_waits(local('_call_soon'))", "C17,C16,C08")] if "asyncio" in TG else []) +
+               # C03 "nothing ever delivered after it" / C01 "in order": what the protocol layer gets to
+               # deliver messages with is the queue's own blocking put -- delivery order is call order,
+               # and a full queue holds the caller back (no detour through tasks that can overtake)
+               [("C03.spawn_app.put-is-the-queue", "is_method_of(result, local('app_queue'), 'put')" if "asyncio" in TG else "is_method_of(result, local('app_send_channel'), 'send')", "C03,C01,C16")],
        props=("C16", "C01"))
 
 
